@@ -123,7 +123,7 @@ class C14(object):
             'shipped seen-rule pairs (en, en_rebank, ja), pairs over the shipped tag inventories, closure under rule '
             'application (depth 2), synthetic categories with several occurrences of one feature variable bound to '
             'different values, [nb] twins, shipped/random/empty seen sets and unary tables.  Oracles: no exception; '
-            'arguments unchanged; identical result list at every evaluation in every replica and equal to the item evaluated '
+            'arguments unchanged (categories, the unary table object - a defaultdict as the loader builds it - and the seen-rule set); identical result list at every evaluation in every replica and equal to the item evaluated '
             'alone in a fresh process image (sampled), also when it is evaluated right after another item (ordered pairs over '
             'a small set biased to items that bind, clash on or keep feature variables); seen filter = all or '
             'nothing; en results independent of [nb]; unary results = configured targets in order.  Distinct = digest '
@@ -243,6 +243,8 @@ class C14(object):
                     table = {'variant': variant}
                 else:
                     table = {'pairs': [list(p) for p in rng.sample(utab, rng.randint(0, min(6, len(utab))))]}
+                if rng.random() < 0.3:
+                    table['plain_dict'] = True      # otherwise a defaultdict(list), as the configuration loader builds it
                 if rng.random() < 0.7:
                     x = str(Category.parse(rng.choice(utab)[0]))
                 else:
